@@ -357,8 +357,11 @@ def core_fn_program(rng, typed=True):
     """a program of lean/P2sh/Core/Fn: global data, 1–3 functions (straight-line with locals, bounded recursion through the
     function's own name, mutual recursion through a forward-declared global, loops with early `return`), calls from the
     top level (in expressions, in loops), sometimes a call with the wrong number of arguments"""
-    if rng.random() < 0.35:
+    q = rng.random()
+    if q < 0.3:
         return core_clos_program(rng)      # closures: function literals inside function bodies capturing locals and parameters
+    if q < 0.55:
+        return core_heap_program(rng)      # arrays and maps: shared objects, aliases, index reads and writes
     ex = fn_int if typed else fn_any
     lines = []
     counter = [0]
@@ -649,6 +652,243 @@ def core_clos_program(rng):
     return text
 
 
+# ---- arrays and maps: shared objects (lean/P2sh/Core/Fn; theorems index_assignment_aliases, array_literal_fresh, …) ----
+HEAP_KEYS = ['1', '2', '7', '"a"', '"b"', '""', "'c'", "b'x'", 'true', 'false', 'null', '1.0', '2.5', '[1, 2]', '[]', '["a", 1]']
+HEAP_BADKEYS = ['map {}', 'fn(x) { x }', 'map {1: 2}']
+
+
+class HeapEnv:
+    """what the generator knows about the program so far: integer variables, arrays of integers with a length that is a
+    lower bound (elements 0 … len-1 are integers), maps with the keys known to be present with integer values, arrays of
+    arrays (never stored anywhere: no cycles), functions; `frozen`: arrays used as map keys (never written afterwards)"""
+
+    def __init__(self, rng):
+        self.rng = rng
+        self.ints, self.arrs, self.maps, self.nests, self.lines = [], {}, {}, {}, []
+        self.n = 0
+        self.setters, self.readers, self.mutreaders, self.getters, self.makers = [], [], [], [], []
+        self.frozen = set()
+
+    def fresh(self, p):
+        self.n += 1
+        return f"{p}{self.n}"
+
+    def lit(self):
+        return str(self.rng.choice([0, 1, 2, 3, 5, 9, 17, 100]))
+
+    def iexp(self, d=2):
+        rng = self.rng
+        r = rng.random()
+        if d <= 0 or r < 0.25:
+            if self.ints and rng.random() < 0.5:
+                return rng.choice(self.ints)
+            return self.lit()
+        if r < 0.45 and self.arrs:
+            a = rng.choice(list(self.arrs))
+            return f"{a}[{rng.randrange(self.arrs[a])}]"
+        if r < 0.55 and self.maps:
+            m = rng.choice(list(self.maps))
+            if self.maps[m]:
+                return f"{m}[{rng.choice(self.maps[m])}]"
+        if r < 0.62 and self.nests:
+            n = rng.choice(list(self.nests))
+            i = rng.randrange(len(self.nests[n]))
+            return f"{n}[{i}][{rng.randrange(self.nests[n][i])}]"
+        if r < 0.68 and (self.readers or self.mutreaders) and self.arrs:
+            a = rng.choice(list(self.arrs))
+            fs = self.readers + ([] if self.frozen else self.mutreaders)
+            if fs:
+                return f"{rng.choice(fs)}({a}, {rng.randrange(self.arrs[a])})"
+        if r < 0.72 and self.getters:
+            g, ln = rng.choice(self.getters)
+            return f"{g}({rng.randrange(ln)})"
+        if r < 0.78 and self.arrs:
+            a = rng.choice(list(self.arrs))
+            b = rng.choice(list(self.arrs))
+            c = rng.choice([f"{a} == {b}", f"{a} != {b}", f"{a}", f"!{a}", f"{a} == [{self.lit()}]", f"{a} && {b}[0] > 1"])
+            return f"if {c} {{ {self.iexp(d - 1)} }} else {{ {self.iexp(d - 1)} }}"
+        return f"({self.iexp(d - 1)} {rng.choice(['+', '-', '*'])} {self.iexp(d - 1)})"
+
+    def arrlit(self, lo=1):
+        k = self.rng.randint(lo, 4)
+        return "[" + ", ".join(self.iexp(1) for _ in range(k)) + "]", k
+
+
+def core_heap_program(rng):
+    """a program of lean/P2sh/Core/Fn with arrays and maps: literals (nested, duplicate keys, keys of every valid kind and
+    arrays as keys), aliases through globals, parameters, locals and captured variables, index reads and writes through every
+    alias, `+` building a new array, `==` / truthiness of containers, loops over indices, and — in some programs — one failing
+    operation (index out of range, negative, missing key, invalid key, indexing a non-container, writing past the end)"""
+    E = HeapEnv(rng)
+    L = E.lines
+    frozen = E.frozen
+    for _ in range(rng.randint(0, 2)):
+        v = E.fresh("g")
+        L.append(f"let {v} = {E.lit()};")
+        E.ints.append(v)
+    # functions working on containers passed as arguments / captured
+    for _ in range(rng.randint(0, 3)):
+        r = rng.random()
+        f = E.fresh("f")
+        if r < 0.25:
+            L.append(f"fn {f}(p, i, v) {{ p[i] = v; p }}")
+            E.setters.append(f)
+        elif r < 0.5:
+            L.append(f"fn {f}(p, i) {{ let q = p; q[i] }}")
+            E.readers.append(f)
+        elif r < 0.7:
+            L.append(f"fn {f}(p, i) {{ p[i] = p[i] + 1; return p[i] * 2; }}")
+            E.mutreaders.append(f)
+        else:
+            L.append(f"fn {f}(a) {{ fn(i) {{ a[i] }} }}")
+            E.makers.append(f)
+    steps = rng.randint(3, 9)
+    for _ in range(steps):
+        r = rng.random()
+        arrs = [a for a in E.arrs]
+        if r < 0.16 or not arrs:
+            a = E.fresh("a")
+            lit, k = E.arrlit()
+            L.append(f"let {a} = {lit};")
+            E.arrs[a] = k
+        elif r < 0.26:
+            b = E.fresh("b")
+            a = rng.choice(arrs)
+            L.append(f"let {b} = {a};")
+            E.arrs[b] = E.arrs[a]
+            if a in frozen:
+                frozen.add(b)
+        elif r < 0.40:
+            ws = [a for a in arrs if a not in frozen]
+            if ws:
+                a = rng.choice(ws)
+                L.append(f"{a}[{rng.randrange(E.arrs[a])}] = {E.iexp(2)};")
+        elif r < 0.48:
+            m = E.fresh("m")
+            ks = [rng.choice(HEAP_KEYS) for _ in range(rng.randint(0, 4))]
+            L.append(f"let {m} = map {{" + ", ".join(f"{k}: {E.iexp(1)}" for k in ks) + "};")
+            E.maps[m] = list(dict.fromkeys(ks))
+        elif r < 0.56 and E.maps:
+            m = rng.choice(list(E.maps))
+            k = rng.choice(HEAP_KEYS)
+            L.append(f"{m}[{k}] = {E.iexp(1)};")
+            if k not in E.maps[m]:
+                E.maps[m].append(k)
+        elif r < 0.60 and E.maps and arrs:
+            # an array variable as a key: it is never written afterwards (the hash of a stored key must not change)
+            m = rng.choice(list(E.maps))
+            a = rng.choice(arrs)
+            frozen.add(a)
+            L.append(f"{m}[{a}] = {E.iexp(1)};")
+            E.maps[m].append(a)
+            # every alias of `a` is frozen too: conservatively freeze all arrays
+            frozen.update(E.arrs)
+        elif r < 0.68:
+            n = E.fresh("n")
+            parts, lens = [], []
+            for _ in range(rng.randint(1, 3)):
+                if arrs and rng.random() < 0.6:
+                    a = rng.choice(arrs)
+                    parts.append(a); lens.append(E.arrs[a])
+                else:
+                    lit, k = E.arrlit()
+                    parts.append(lit); lens.append(k)
+            L.append(f"let {n} = [{', '.join(parts)}];")
+            E.nests[n] = lens
+            if any(p in frozen for p in parts):
+                frozen.add(n)
+        elif r < 0.74 and E.nests:
+            ws = [n for n in E.nests if n not in frozen and not frozen]
+            if ws:
+                n = rng.choice(ws)
+                i = rng.randrange(len(E.nests[n]))
+                L.append(f"{n}[{i}][{rng.randrange(E.nests[n][i])}] = {E.iexp(1)};")
+        elif r < 0.80 and len(arrs) >= 1:
+            c = E.fresh("c")
+            a, b = rng.choice(arrs), rng.choice(arrs)
+            L.append(f"let {c} = {a} + {b};")
+            E.arrs[c] = E.arrs[a] + E.arrs[b]
+        elif r < 0.86 and E.setters:
+            ws = [a for a in arrs if a not in frozen]
+            if ws:
+                a = rng.choice(ws)
+                f = rng.choice(E.setters)
+                b = E.fresh("b")
+                L.append(f"let {b} = {f}({a}, {rng.randrange(E.arrs[a])}, {E.iexp(1)});")
+                E.arrs[b] = E.arrs[a]
+        elif r < 0.90 and E.makers:
+            a = rng.choice(arrs)
+            g = E.fresh("h")
+            L.append(f"let {g} = {rng.choice(E.makers)}({a});")
+            E.getters.append((g, E.arrs[a]))
+        elif r < 0.95:
+            ws = [a for a in arrs if a not in frozen]
+            if ws:
+                a = rng.choice(ws)
+                i = E.fresh("i")
+                L.append(f"let {i} = 0;")
+                L.append(f"while {i} < {E.arrs[a]} {{ {a}[{i}] = {a}[{i}] * 2 + {i}; {i} = {i} + 1; }}")
+        else:
+            # locals: a literal evaluated on every call is a fresh object each time; an alias inside the function
+            f = E.fresh("f")
+            L.append(f"fn {f}(n) {{ let t = [n, n * 2]; let u = t; u[0] = 7; let w = [t, [n]]; w[1][0] = t[0] + t[1]; w[1][0] - n }}")
+            v = E.fresh("r")
+            L.append(f"let {v} = {f}({E.iexp(1)}) - {f}({E.lit()});")
+            E.ints.append(v)
+        if rng.random() < 0.35:
+            v = E.fresh("r")
+            L.append(f"let {v} = {E.iexp(2)};")
+            E.ints.append(v)
+    v = E.fresh("r")
+    L.append(f"let {v} = {E.iexp(3)};")
+    if rng.random() < 0.2:
+        # one failing operation
+        arrs = list(E.arrs)
+        a = rng.choice(arrs) if arrs else None
+        m = rng.choice(list(E.maps)) if E.maps else None
+        bad = [f"let z = 5[0];", f"let z = \"s\"[0];", f"let z = map {{{rng.choice(HEAP_BADKEYS)}: 1}};", "let z = [1, 2][2];", "let z = [][0];",
+               "let z = map {1: null}[1];", "let z = [1][true];", "let z = (fn(x) { x })[0];"]
+        if a:
+            bad += [f"let z = {a}[{E.arrs[a] + 40}];", f"let z = {a}[-1];", f"let z = {a}[0 - 1];", f"{a}[{E.arrs[a] + 40}] = 1;", f"let z = {a}[\"k\"];",
+                    f"let z = {a}[1.0];", f"{a}[-1] = 0;", f"let z = {a}[{a}];"]
+        if m:
+            bad += [f"let z = {m}[\"absent\"];", f"let z = {m}[{rng.choice(HEAP_BADKEYS)}];", f"{m}[{rng.choice(HEAP_BADKEYS)}] = 1;", f"let z = {m}[12345];"]
+        k = rng.randrange(len(L) + 1)
+        L.insert(max(k, len(L) - 3), rng.choice(bad))
+    return "\n".join(L) + "\n"
+
+
+CORE_HEAP_FIXED = [
+    "let a = [1, 2, 3];\nlet b = a;\nb[0] = 9;\nlet x = a[0];\n",
+    "fn lit() { [1, 2] }\nlet a = lit();\nlet b = lit();\na[0] = 5;\nlet x = b[0];\nlet e = a == b;\n",
+    "let m = map {1: \"a\", 1.0: \"b\", \"k\": 1, \"k\": 2};\nlet x = m[1];\nlet y = m[\"k\"];\n",
+    "let a = [1];\nlet b = [2];\nlet c = a + b;\nc[0] = 7;\nlet x = a[0];\nlet y = c[0];\nlet d = a + a;\nd[1] = 5;\nlet z = a[0];\n",
+    "fn mk(a) { fn(i, v) { a[i] = v; a } }\nlet arr = [1, 2, 3];\nlet f = mk(arr);\nlet r = f(1, 20);\nlet s = arr[1];\nlet t = r == arr;\n",
+    "let w = [[1, 2], [3]];\nlet p = w[0];\np[1] = 10;\nlet x = w[0][1];\nw[1] = p;\nw[1][0] = 4;\nlet y = w[0][0];\n",
+    "let m = map {[1, 2]: \"x\", [1]: \"y\"};\nlet k = [1, 2];\nlet x = m[k];\nm[[1]] = \"z\";\nlet y = m[[1]];\nlet mm = map {\"in\": m};\nmm[\"in\"][3] = 4;\nlet z = m[3];\n",
+    "let a = [1, 2];\nlet x = a[2];\n",
+    "let a = [1, 2];\nlet x = a[-1];\n",
+    "let a = [1, 2];\na[2] = 0;\n",
+    "let m = map {1: 2};\nlet x = m[3];\n",
+    "let m = map {1: 2};\nlet x = m[map {}];\n",
+    "let m = map {fn(x) { x }: 2};\n",
+    "let m = map {1: null};\nlet x = m[1];\n",
+    "let x = 5[0];\n",
+    "let a = [1];\nlet x = a[\"k\"];\n",
+    "let a = [];\nlet r = 0;\nif a { r = 1; } else { r = 2; }\nlet b = [0];\nif b { r = r + 10; }\nlet n = !a;\nlet q = a || 7;\nlet m = map {};\nlet t = m && 1;\nwhile b { b = []; r = r + 100; }\n",
+    "let a = [1, 2];\nlet r = match a { 1 => 10, _ => 20 };\nlet s = (a[0] = 5) + a[0];\nlet i = 0;\nlet t = a[i = 1];\n",
+    "let a = [1, [2, 3]];\nlet b = [1, [2, 3]];\nlet e = a == b;\nb[1][0] = 9;\nlet f = a == b;\nlet g = a != b;\nlet h = map {1: a} == map {1: a};\n",
+    "let a = [3, 4];\nlet i = 0;\nlet s = 0;\nwhile i < 2 { let t = [a[i], i]; s = s * 10 + t[0] - t[1]; a[i] = t; i = i + 1; }\nlet x = a[1][0];\n",
+    "fn f(p) { p[0] = p[0] + 1; p }\nlet a = [0];\nlet b = f(f(f(a)));\nlet x = a[0];\nlet y = b == a;\n",
+    "fn f() { let t = [0]; fn() { t[0] = t[0] + 1; t[0] } }\nlet c = f();\nlet d = f();\nlet r1 = c();\nlet r2 = c();\nlet r3 = d();\n",
+    "let a = [1, 2, 3];\nlet b = a[1 - 2];\n",
+    "let a = [1];\nlet b = a + 1;\n",
+    "let a = [1];\nlet b = a - a;\n",
+    "let m = map {1: 2};\nlet b = m + m;\n",
+    "let a = [1];\nlet b = a < a;\n",
+]
+
+
 CORE_CLOS_FIXED = [
     "fn mk(a, b) { let c = a * 2; return fn(x) { a - b + c * x }; }\nlet f = mk(1, 2);\nlet g = mk(10, 3);\nlet r = f(5);\nlet q = g(7);\n",
     "fn counter() { let n = 0; return fn() { n = n + 1; n }; }\nlet c = counter();\nlet d = counter();\nlet r1 = c();\nlet r2 = c();\nlet r3 = d();\nlet r4 = c();\nlet e = c;\nlet r5 = e();\nlet r6 = c();\n",
@@ -687,7 +927,7 @@ CORE_FN_FIXED = [
     "fn f(x) { while x > 0 { x = x - 1; } }\nlet r = f(3);\n",
     "fn fib(n) { if n < 2 { return n; } let a = fib(n - 1); let b = fib(n - 2); a + b }\nlet i = 0;\nlet s = 0;\nwhile i < 8 { s = s + fib(i); i = i + 1; }\n",
     "let f = fn(n, acc) { if n <= 0 { return acc; } f(n - 1, acc + n) };\nlet r = f(50, 0);\n",
-] + CORE_CLOS_FIXED
+] + CORE_CLOS_FIXED + CORE_HEAP_FIXED
 
 
 def sources(ctx):
